@@ -4,8 +4,8 @@ import D2P.Proofs.Dict
 /-!
 # C12 — the reference of a comment is exactly the run strings between its two markers
 
-`walk_runs` (Proofs/RunsWalk.lean): with html off, inside one open paragraph, the collector's runs
-and the recorded comment ranges evolve exactly as the run-string machine `runsOf` says.  On the
+`walk_runs` (Proofs/RunsWalk.lean): in either html mode, inside one open paragraph, the collector's
+runs and the recorded comment ranges evolve exactly as the run machine `runsOf` says.  On the
 machine the property can be read off:
 
 * `runs_mono`      complete strings are never changed or removed: the list only grows at its end;
@@ -39,15 +39,14 @@ theorem foldMarkers_r (f : RS → Str → RS) (hf : ∀ st id, (f st id).r = st.
 theorem openRuns_grows (cfg : PartCfg) (k : Nat) (x : Xml) (l : M Str) (st st' : RS) (r : Bool)
     (h : openRuns cfg k x l st = .ok (st', r)) : Grows st st' := by
   unfold openRuns at h
-  have pa : ∀ (a b : List Str), a <+: a ++ b := fun a b => List.prefix_append a b
   split at h
   all_goals first
-    | (have := pure_ok h; cases this; first | exact Grows.refl _ | (apply grows_r; simp [RState.newRun, RState.txt, RState.ins, pa]; done))
+    | (have := pure_ok h; cases this; first | (unfold Grows; first | exact List.prefix_refl _ | (simp [RState.txt, RState.newRun, RState.ins, RState.insOpt, RS.start, RS.stop]; done)) | (split <;> (unfold Grows; first | exact List.prefix_refl _ | (simp [RState.txt, RState.newRun, RState.ins, RState.insOpt, RS.start, RS.stop]; done))))
+    | (dsimp only at h; have := pure_ok h; cases this; first | (unfold Grows; first | exact List.prefix_refl _ | (simp [RState.txt, RState.newRun, RState.ins, RState.insOpt, RS.start, RS.stop]; done)) | (split <;> (unfold Grows; first | exact List.prefix_refl _ | (simp [RState.txt, RState.newRun, RState.ins, RState.insOpt, RS.start, RS.stop]; done))))
+    | (obtain ⟨v, _, h⟩ := bind_ok h; have := pure_ok h; cases this
+       first | (unfold Grows; first | exact List.prefix_refl _ | (simp [RState.txt, RState.newRun, RState.ins, RState.insOpt, RS.start, RS.stop]; done)) | (split <;> (unfold Grows; first | exact List.prefix_refl _ | (simp [RState.txt, RState.newRun, RState.ins, RState.insOpt, RS.start, RS.stop]; done))) | (cases v <;> (unfold Grows; first | exact List.prefix_refl _ | (simp [RState.txt, RState.newRun, RState.ins, RState.insOpt, RS.start, RS.stop]; done))))
     | skip
-  · obtain ⟨id, _, h⟩ := bind_ok h; have := pure_ok h; cases this; exact Grows.refl _
-  · obtain ⟨id, _, h⟩ := bind_ok h; have := pure_ok h; cases this; exact Grows.refl _
-  · obtain ⟨c, _, h⟩ := bind_ok h; have := pure_ok h; cases this
-    cases c <;> simp [Grows, RState.txt]
+  -- what is left: the hyperlink
   · obtain ⟨t, _, h⟩ := bind_ok h
     obtain ⟨qs, _, h⟩ := bind_ok h
     obtain ⟨st1, h1, h⟩ := bind_ok h
@@ -58,22 +57,16 @@ theorem openRuns_grows (cfg : PartCfg) (k : Nat) (x : Xml) (l : M Str) (st st' :
     have e1 := foldMarkers_r (fun s id => s.start k id) (fun _ _ => rfl) _ st st1 h1
     have e2 := foldMarkers_r (fun s id => s.stop k id) (fun _ _ => rfl) _ _ _ h2
     unfold Grows
-    rw [e2]; simp only [RState.ins, e1, List.append_assoc]; exact pa _ _
-  · obtain ⟨t, _, h⟩ := bind_ok h; have := pure_ok h; cases this; exact grows_r (by simp [RState.ins, pa, List.append_assoc])
-  · obtain ⟨t, _, h⟩ := bind_ok h; have := pure_ok h; cases this; exact grows_r (by simp [RState.ins, pa, List.append_assoc])
-  · obtain ⟨t, _, h⟩ := bind_ok h; have := pure_ok h; cases this; exact grows_r (by simp [RState.ins, pa, List.append_assoc])
-  · obtain ⟨t, _, h⟩ := bind_ok h; have := pure_ok h; cases this; exact grows_r (by simp [RState.ins, pa, List.append_assoc])
-  · obtain ⟨t, _, h⟩ := bind_ok h; have := pure_ok h; cases this
-    cases t <;> simp [Grows, RState.insOpt, RState.ins, List.append_assoc, pa]
-  · obtain ⟨t, _, h⟩ := bind_ok h; have := pure_ok h; cases this
-    cases t <;> simp [Grows, RState.insOpt, RState.ins, List.append_assoc, pa]
+    rw [e2]; simp [RState.ins, e1]
+  -- … and the alt-text stand-in
   · have := pure_ok h; cases this
-    cases x.attrGet ⟨none, lit "descr"⟩ <;> simp [Grows, RState.insOpt, RState.ins, List.append_assoc, pa]
+    unfold Grows
+    cases x.attrGet ⟨none, lit "descr"⟩ <;> simp [RState.insOpt, RState.ins]
 
 theorem closeRuns_grows (x : Xml) (st : RS) : Grows st (closeRuns x st) := by
   unfold closeRuns
   split
-  · exact grows_r (by simp [RState.newRun])
+  · unfold Grows; simp [RState.newRun]
   · exact Grows.refl _
 
 mutual
@@ -166,6 +159,8 @@ theorem openRuns_untouched (cfg : PartCfg) (k : Nat) (x : Xml) (l : M Str) (st s
   split at h
   all_goals first
     | (have := pure_ok h; cases this; rfl)
+    | (dsimp only at h; have := pure_ok h; cases this; rfl)
+    | (obtain ⟨v, _, h⟩ := bind_ok h; have := pure_ok h; cases this; rfl)
     | skip
   · rename_i heq
     obtain ⟨id', hid, h⟩ := bind_ok h; have := pure_ok h; cases this
@@ -175,7 +170,6 @@ theorem openRuns_untouched (cfg : PartCfg) (k : Nat) (x : Xml) (l : M Str) (st s
     obtain ⟨id', hid, h⟩ := bind_ok h; have := pure_ok h; cases this
     simp only [heq, hid] at hm
     exact start_other st k id id' (fun e => hm (by rw [e]))
-  · obtain ⟨c, _, h⟩ := bind_ok h; have := pure_ok h; cases this; rfl
   · rename_i heq
     obtain ⟨t, _, h⟩ := bind_ok h
     obtain ⟨qs, hqs, h⟩ := bind_ok h
@@ -187,12 +181,6 @@ theorem openRuns_untouched (cfg : PartCfg) (k : Nat) (x : Xml) (l : M Str) (st s
     simp only [heq, hqs, hqe, List.any_append, Bool.or_eq_false_iff] at hl
     rw [foldMarkers_other (fun s id => s.stop k id) id (fun s id' hne => stop_other s k id id' hne) _ _ _ hl.2 h2]
     exact foldMarkers_other (fun s id => s.start k id) id (fun s id' hne => start_other s k id id' hne) _ st st1 hl.1 h1
-  · obtain ⟨t, _, h⟩ := bind_ok h; have := pure_ok h; cases this; rfl
-  · obtain ⟨t, _, h⟩ := bind_ok h; have := pure_ok h; cases this; rfl
-  · obtain ⟨t, _, h⟩ := bind_ok h; have := pure_ok h; cases this; rfl
-  · obtain ⟨t, _, h⟩ := bind_ok h; have := pure_ok h; cases this; rfl
-  · obtain ⟨t, _, h⟩ := bind_ok h; have := pure_ok h; cases this; rfl
-  · obtain ⟨t, _, h⟩ := bind_ok h; have := pure_ok h; cases this; rfl
 
 theorem closeRuns_ranges (x : Xml) (st : RS) : (closeRuns x st).ranges = st.ranges := by
   unfold closeRuns; split <;> rfl
@@ -266,7 +254,7 @@ theorem C12_between (cfg : PartCfg) (k : Nat) (links : Xml → M Str) (pre mid p
     (st0 st : RS) (h : runsOfL cfg k links (pre ++ [ms] ++ mid ++ [me] ++ post) st0 = .ok st) :
     ∃ st1 st2, runsOfL cfg k links pre st0 = .ok st1 ∧ runsOfL cfg k links mid (st1.start k id) = .ok st2 ∧
       st.ranges.get? id = some (k + st1.r.count, k + st2.r.count) ∧
-      (st1.r.2 = [] → st2.r.2 = [] →
+      (st1.r.2.text = [] → st2.r.2.text = [] →
         st1.r.count = st1.r.1.length ∧ st2.r.count = st2.r.1.length ∧
         ∃ between, st2.r.1 = st1.r.1 ++ between ∧ st2.r.1 <+: st.r.1) := by
   simp only [runsOfL_append, List.append_assoc] at h
@@ -290,26 +278,26 @@ theorem C12_between (cfg : PartCfg) (k : Nat) (links : Xml → M Str) (pre mid p
     have g12 : Grows (st1.start k id) st2 := runsL_mono cfg k links mid _ st2 h2
     have g2 : Grows (st2.stop k id) st := runsL_mono cfg k links post _ st h
     obtain ⟨between, hb⟩ := g12
-    exact ⟨by simp [RState.count, c1, ne], by simp [RState.count, c2, ne], between, hb.symm, g2⟩
+    exact ⟨by simp [RState.count, c1, keep], by simp [RState.count, c2, keep], between, hb.symm, g2⟩
 
-/-- **C12 on the collector** (html off): the same, for the real walk.  Inside one open paragraph
+/-- **C12 on the collector** (both html modes): the same, for the real walk.  Inside one open paragraph
 whose predecessors hold `k` run strings, after walking `pre ++ [start] ++ mid ++ [end] ++ post` the
 collector's `comment_ranges[id]` is `(k + count₁, k + count₂)`, and — markers at run boundaries —
 the open paragraph's complete run strings begin with those complete at the end marker, which are
 those complete at the start marker followed by the strings produced in between. -/
-theorem C12_ranges_partial (cfg : PartCfg) (hc : cfg.html = false) (num : Dict Str (List NumAttr)) (k : Nat) (c : Bool)
+theorem C12_ranges_partial (cfg : PartCfg) (num : Dict Str (List NumAttr)) (k0 : Nat) (tag : Bool) (c : Bool)
     (pre mid post : List Xml) (ms me : Xml) (id : Str) (hms : isStart ms id) (hme : isEnd me id)
     (hmid : mentionsL id mid = false) (hpost : mentionsL id post = false)
     (hs : simpleL (pre ++ [ms] ++ mid ++ [me] ++ post) = true)
-    (s s' : DC) (p : Par) (hin : In s k p) (h : walkL cfg num c s (pre ++ [ms] ++ mid ++ [me] ++ post) = .ok s') :
-    ∃ p' st1 st2, In s' k p' ∧ s'.root = s.root ∧
-      runsOfL cfg k (linksOf cfg num c) pre (absS s p) = .ok st1 ∧
-      runsOfL cfg k (linksOf cfg num c) mid (st1.start k id) = .ok st2 ∧
-      s'.ranges.get? id = some (k + st1.r.count, k + st2.r.count) ∧
-      (st1.r.2 = [] → st2.r.2 = [] →
-        ∃ between, st2.r.1 = st1.r.1 ++ between ∧ st2.r.1 <+: texts p'.runs.dropLast) := by
-  obtain ⟨p', i', r', o'⟩ := walkL_runs cfg hc num k c _ s s' p hs hin h
-  obtain ⟨st1, st2, h1, h2, hr, hb⟩ := C12_between cfg k (linksOf cfg num c) pre mid post ms me id hms hme hmid hpost _ _ o'
+    (s s' : DC) (p : Par) (hin : In s k0 tag p) (h : walkL cfg num c s (pre ++ [ms] ++ mid ++ [me] ++ post) = .ok s') :
+    ∃ p' st1 st2, In s' k0 tag p' ∧ s'.root = s.root ∧
+      runsOfL cfg (k0 + tagOff tag) (linksOf cfg num c) pre (absS s p) = .ok st1 ∧
+      runsOfL cfg (k0 + tagOff tag) (linksOf cfg num c) mid (st1.start (k0 + tagOff tag) id) = .ok st2 ∧
+      s'.ranges.get? id = some (k0 + tagOff tag + st1.r.count, k0 + tagOff tag + st2.r.count) ∧
+      (st1.r.2.text = [] → st2.r.2.text = [] →
+        ∃ between, st2.r.1 = st1.r.1 ++ between ∧ st2.r.1 <+: kept p'.runs.dropLast) := by
+  obtain ⟨p', i', r', o'⟩ := walkL_runs cfg num k0 tag c _ s s' p hs hin h
+  obtain ⟨st1, st2, h1, h2, hr, hb⟩ := C12_between cfg (k0 + tagOff tag) (linksOf cfg num c) pre mid post ms me id hms hme hmid hpost _ _ o'
   refine ⟨p', st1, st2, i', r', h1, h2, hr, ?_⟩
   intro c1 c2
   obtain ⟨_, _, between, e, g⟩ := hb c1 c2
@@ -321,8 +309,12 @@ def commented : List Xml :=
   [r 2 [t 3 "a"], el 4 "commentRangeStart" [wattr "id" "7"] none [], r 5 [t 6 "b"], r 7 [el 8 "tab" [] none [], t 9 "c"],
    el 10 "commentRangeEnd" [wattr "id" "7"] none [], r 11 [t 12 "d"]]
 
-example : (runsOfL cfg 10 (fun _ => pure []) commented ⟨([], []), []⟩).map (fun st => (st.r.strings, st.ranges)) =
+example : (runsOfL cfg 10 (fun _ => pure []) commented ⟨RState.init, []⟩).map (fun st => (st.r.runs.map (·.text), st.ranges)) =
     .ok ([lit "a", lit "b", lit "\t", lit "c", lit "d"], [(lit "7", (11, 14))]) := by decide +kernel
+/-- with html on, a bold run keeps its tag and only its tag -/
+example : (runsOfL { html := true, dup := true, rels := [] } 0 (fun _ => pure [])
+      [r 1 [el 2 "rPr" [] none [el 3 "b" [] none []], t 4 "x<y"], r 5 [t 6 "z"]] ⟨RState.init, []⟩).map (fun st => st.r.runs) =
+    .ok [{ style := [lit "b"], text := lit "x&lt;y" }, { style := [], text := lit "z" }] := by decide +kernel
 end Ex
 
 end D2P
